@@ -26,6 +26,19 @@ def _load(pid):
     return importlib.import_module(f"harness.{pid}")
 
 
+def _cases(mod, pid, tier, seed):
+    """cases of a property with the tier overrides of /verif/harness/attempt_overrides.json applied: cases that were built but are
+    not decided within budget on the unchanged tree run only in the 'attempt' tier (nothing is claimed for them)"""
+    cs = mod.cases(tier, seed)
+    p = os.path.join(VERIF, "harness", "attempt_overrides.json")
+    if os.path.exists(p):
+        ov = json.load(open(p)).get(pid, {})
+        for c in cs:
+            if c.name in ov:
+                c.tiers = ("attempt",)
+    return cs
+
+
 def _run_one(args):
     pid, cname, tier, seed = args
     t0 = time.time()
@@ -33,7 +46,7 @@ def _run_one(args):
         from symgeo import loader
         loader.install()
         mod = _load(pid)
-        case = next(c for c in mod.cases(tier, seed) if c.name == cname)
+        case = next(c for c in _cases(mod, pid, tier, seed) if c.name == cname)
         if case.kind == "custom":
             d = case.fn(tier, seed)
             d.setdefault("name", cname)
@@ -122,7 +135,7 @@ def main(argv=None):
     from symgeo import loader
     loader.install()
     mod = _load(pid)
-    cases = [c for c in mod.cases(a.tier, seed) if a.tier in c.tiers and (a.case is None or c.name == a.case)]
+    cases = [c for c in _cases(mod, pid, a.tier, seed) if a.tier in c.tiers and (a.case is None or c.name == a.case)]
     jobs = [(pid, c.name, a.tier, seed) for c in cases]
     results = []
     if a.worker:
@@ -279,7 +292,7 @@ def replay(pid, path):
     env = {k: Fraction(v) for k, v in rec["env"].items()}
     from symgeo.explore import Runner, Budget
     for tier in ("thorough", "quick"):
-        cs = [c for c in mod.cases(tier, 0) if c.name == rec["case"]]
+        cs = [c for c in _cases(mod, pid, tier, 0) if c.name == rec["case"]]
         if cs:
             break
     if not cs:
